@@ -32,10 +32,14 @@ class EvalCtx(object):
         self.project = project
         self.level = 0
         self.nodes = set()  # type: set[t.Hashable]
+        self.cuts = 0  # how many nested evaluations the re-entrancy guard has cut short
 
     def evaluate(self, node):
         # type: (AST | Object | Name | None) -> Object | None
-        if node is None or node in self.nodes:
+        if node is None:
+            return None
+        if node in self.nodes:
+            self.cuts += 1
             return None
         self.nodes.add(node)
         self.level += 1
